@@ -1,7 +1,7 @@
 (* Theorems about component-tree construction (C14). *)
 From Coq Require Import String Ascii.
 From Coq Require Import List Bool Arith Lia.
-From Asphalt Require Import Config.Val Config.MergeSpec Config.MergeProofs Config.CompCfg.
+From Asphalt Require Import Config.Val Config.MergeSpec Config.MergeProofs Config.CompCfg Gen.Gen_initcomp.
 Import ListNotations.
 Open Scope string_scope.
 Open Scope list_scope.
@@ -194,3 +194,11 @@ Proof.
   intros kind name H. unfold has_slash in H. destruct (after_slash kind) eqn:E; [discriminate|].
   unfold default_name_of. rewrite after_slash_app by auto. split; auto. now apply before_slash_app.
 Qed.
+
+(* ---------- the shape of _init_component the model was computed from (Gen/Gen_initcomp.v) ---------- *)
+Theorem init_component_source_shape :
+  ic_kwargs_exclude_type_and_components = true /\ ic_external_overrides_hardcoded = true /\
+  ic_none_config_is_empty = true /\ ic_child_config_copied = true /\ ic_alias_is_default_type = true /\
+  ic_type_keeps_what_precedes_slash = true /\ ic_default_name_follows_first_slash = true /\
+  ic_children_in_merged_order = true.
+Proof. repeat split. Qed.
